@@ -30,6 +30,13 @@ RULE = ("a case = (type hint, input, channel). Type hints: every hint of the gra
         "Unions) with texts on which the flag decides, the declared predicate evaluated by Python re in the harness; Unions of "
         "TypedDict classes (4 classes, pairs and triples in several orders, beside plain members) with values whose earlier field "
         "converts and later field fails, missing / extra keys, text. "
+        "Kind cases (seed independent): List / Tuple[.,...] / Tuple[.,.] / Dict[str,.] / Dict[int,.] / List[List[.]] / Optional / "
+        "List[Optional] over int, float, bool, str with one item of every scalar kind (alone and after a conforming item). "
+        "History cases: the main parse preceded, in ONE fresh process forked by the runner, by parses (each on its own parser) "
+        "under a hint easily confused with the main one (Literal[1, 0] / Literal[True, False] / Literal[0, 1]; Union[a, b] / "
+        "Union[b, a]; Optional orders; Tuple[int, str] / Tuple[str, int] / Tuple[()] / List / Set; Dict[str,.] / Dict[int,.]; Enums and "
+        "Literals of their member names), bare or wrapped in List / Dict / Optional, with texts of the group; the judge ignores the "
+        "history. The empty tuple hint Tuple[()] is a leaf of the hint generator and a Union member. "
         "Set cases: Set[T] (also inside List/Dict/Optional/Tuple) for ten item types given ORDERED inputs (list, tuple, text) "
         "containing every ordered pair of == items of different kinds (1/True/1.0, 0/False/0.0, 2/2.0), alone and with company, "
         "plus conforming and random item sequences; every item stand-alone. "
@@ -52,6 +59,8 @@ ASSUMPTIONS = [
     "exception counts as a member failure (as `except Exception` in the trial loop does); they occur only as direct Union members",
     "TypedDict members are total, with fields of the modelled grammar; their behaviour is observed, their conformance is judged "
     "from the declared fields; the declared predicate of the flagged restricted string types is computed with Python's re",
+    "a command-line / config text counts as right-shaped when YAML reads it as a non-str value of the right shape (blank text and "
+    "'-' excepted: the parser keeps them as text); acceptance is a function of (hint, value): histories are not part of the model",
     "an int beyond the float range is not given to a modelled `float` member (Model/Ty.v's float(int) has no OverflowError branch)",
     "floats are compared as decimals (<= 15 significant digits); a resulting set is compared in the canonical order ints, strs, "
     "False, True, then at most one other item",
@@ -89,6 +98,7 @@ def translate():
 LEAVES = [["str"], ["int"], ["float"], ["bool"], ["none"], ["any"],
           ["lit", [["int", "1"], ["int", "2"]]], ["lit", [["str", "a"], ["str", "b"]]],
           ["lit", [["str", "null"], ["int", "0"], ["bool", True]]], ["lit", [["none"], ["str", "1"]]],
+          ["lit", [["int", "1"], ["int", "0"]]], ["lit", [["bool", True], ["bool", False]]], ["tuple", []],
           ["enum", "Color", ENUMS["Color"]], ["enum", "Sw", ENUMS["Sw"]]]
 HASHABLE_LEAVES = [["str"], ["int"], ["lit", [["int", "1"], ["int", "2"]]], ["lit", [["str", "a"], ["str", "b"]]]]
 
@@ -153,7 +163,7 @@ def rand_ty(rng, depth, hashable=False):
     if k == "dicti":
         return ["dict", "int", rand_ty(rng, depth - 1)]
     if k == "tuple":
-        return ["tuple", [rand_ty(rng, depth - 1) for _ in range(rng.choice([1, 2, 2, 3]))]]
+        return ["tuple", [rand_ty(rng, depth - 1) for _ in range(rng.choice([0, 1, 2, 2, 3]))]]
     if k == "tuplevar":
         return ["tuplevar", rand_ty(rng, depth - 1)]
     return ["set", rand_ty(rng, 1, hashable=True)]
@@ -551,7 +561,7 @@ def pred_matches(name, text):
 
 OPQ = ["PositiveFloat", "PositiveInt", "ClosedUnitInterval", "NonNegativeInt", "Decimal", "Email", "NotEmptyStr", "StrColor", "Picky"]
 X_MODELLED = [["int"], ["str"], ["bool"], ["float"], ["none"], ["list", ["int"]], ["lit", [["int", "1"], ["int", "2"]]],
-              ["dict", "str", ["int"]]]
+              ["dict", "str", ["int"]], ["tuple", []], ["tuple", [["int"], ["str"]]]]
 BIG = 10 ** 400
 X_VALUES = [["int", "1"], ["int", "-1"], ["int", "0"], ["int", "2"], ["float", "0.5"], ["float", "2.5"], ["float", "1.0"],
             ["int", str(BIG)], ["int", str(-BIG)], ["str", "abc"], ["str", "0.25"], ["str", "1e3"], ["str", "inf"],
@@ -732,6 +742,82 @@ def set_cases(rng, tier):
     return cases
 
 
+# -----------------------------------------------------------------------------------------------------------------
+# histories: acceptance is a function of (hint, value) — not of which OTHER hints the process has parsed before.
+# A case = the main query preceded, in one fresh process (forked by the runner), by parses under hints that are easily
+# confused with the main hint: equal as Python objects but different (Literal[1, 0] / Literal[True, False]: (1, 0) ==
+# (True, False); Union[a, b] / Union[b, a]; List[Union[a, b]] / List[Union[b, a]]), same members in another container,
+# Enum classes with the same member names. The judge ignores the history: model and spec are history-free.
+# -----------------------------------------------------------------------------------------------------------------
+def history_cases(rng, tier):
+    quick = tier == "quick"
+    L10, LTF = ["lit", [["int", "1"], ["int", "0"]]], ["lit", [["bool", True], ["bool", False]]]
+    L12, LS = ["lit", [["int", "1"], ["int", "2"]]], ["lit", [["str", "1"], ["str", "2"]]]
+    LN1, LMIX = ["lit", [["none"], ["str", "1"]]], ["lit", [["str", "null"], ["int", "0"], ["bool", True]]]
+    I, S, B, F, N = ["int"], ["str"], ["bool"], ["float"], ["none"]
+    col, sw = ["enum", "Color", ENUMS["Color"]], ["enum", "Sw", ENUMS["Sw"]]
+    groups = [
+        [L10, LTF, ["lit", [["int", "0"], ["int", "1"]]], ["lit", [["bool", False], ["bool", True]]], LMIX],
+        [L12, LS, LN1, ["lit", [["int", "2"], ["int", "1"]]]],
+        [mk_union([I, S]), mk_union([S, I]), mk_union([B, I]), mk_union([I, B]), mk_union([F, I]), mk_union([I, F])],
+        [mk_union([I, N]), mk_union([N, I]), mk_union([B, N]), mk_union([N, B]), mk_union([col, N]), mk_union([sw, N])],
+        [["tuple", [I, S]], ["tuple", [S, I]], ["tuple", []], ["tuplevar", I], ["list", I], ["set", I]],
+        [["dict", "str", I], ["dict", "int", I], ["dict", "str", S], ["dict", "int", S]],
+        [col, sw, ["lit", [["str", "RED"], ["str", "GREEN"]]], ["lit", [["str", "on"], ["str", "off"]]]],
+    ]
+    gtexts = [["1", "0", "true", "false", "null"], ["1", "2", "null", "3"], ["1", "true", "a", "1.0", "0"],
+              ["null", "1", "true", "RED", "on", "~"], ["[1, a]", "[]", "[1]", "[1, 2]", "[a, 1]"], ["{1: 2}", "{a: 1}", "{}", "{a: b}"],
+              ["RED", "on", "off", "GREEN", "A1"]]
+    wraps = [lambda t: t, lambda t: t, lambda t: ["list", t], lambda t: ["dict", "str", t], lambda t: mk_union([t, ["none"]])]
+
+    def val_for(w, text):
+        return [["str", text], ["str", text], ["list", [["str", text]]], ["dict", [[["str", "a"], ["str", text]]]], ["str", text]][w]
+
+    cases = []
+    for g, texts in zip(groups, gtexts):
+        pairs = [(a, b) for a in g for b in g if a != b]
+        if quick:
+            pairs = rng.sample(pairs, min(len(pairs), 10))
+        for h1, h2 in pairs:
+            for _ in range(2 if quick else 5):
+                w1, w2 = rng.randrange(len(wraps)), rng.randrange(len(wraps))
+                t1, t2 = rng.choice(texts), rng.choice(texts)
+                c = make_case(rng, wraps[w2](h2), val_for(w2, t2), 0)
+                c["perms"], c["parts"] = [], None
+                c["before"] = [{"ty": wraps[w1](h1), "val": val_for(w1, t1), "ch": "obj"}]
+                if rng.random() < 0.3:
+                    c["before"].append({"ty": wraps[w1](h1), "val": val_for(w1, t2), "ch": "obj"})
+                cases.append(c)
+    return cases
+
+
+# every container shape over every scalar leaf, with ONE item of each other scalar kind (bool for int, int for bool, int for
+# float, float for int, str look-alikes ...) — systematic, independent of the seed
+def kind_cases(rng, tier):
+    scal = {"int": [["int", "1"], ["int", "0"]], "float": [["float", "1.0"], ["float", "0.5"]], "bool": [["bool", True], ["bool", False]],
+            "str": [["str", "a"], ["str", "1"]], "none": [["none"]]}
+    conts = [("list", lambda t: ["list", t], lambda xs: ["list", xs]),
+             ("tuplevar", lambda t: ["tuplevar", t], lambda xs: ["tuple", xs]),
+             ("tuple", lambda t: ["tuple", [t, t]], lambda xs: ["tuple", (xs + xs)[:2]]),
+             ("dict", lambda t: ["dict", "str", t], lambda xs: ["dict", [[["str", "k%d" % i], x] for i, x in enumerate(xs)]]),
+             ("dicti", lambda t: ["dict", "int", t], lambda xs: ["dict", [[["int", str(i)], x] for i, x in enumerate(xs)]]),
+             ("listlist", lambda t: ["list", ["list", t]], lambda xs: ["list", [["list", xs]]]),
+             ("opt", lambda t: mk_union([t, ["none"]]), lambda xs: xs[-1]),
+             ("listopt", lambda t: ["list", mk_union([t, ["none"]])], lambda xs: ["list", xs])]
+    cases = []
+    for leaf in ("int", "float", "bool", "str"):
+        good = scal[leaf][0]
+        for name, mk_t, mk_v in conts:
+            t = mk_t([leaf])
+            for kind, vals in scal.items():
+                for x in vals:
+                    for xs in ([x], [good, x]):
+                        v = mk_v(xs)
+                        if valid_val(v):
+                            cases.append(make_case(rng, t, v, 2))
+    return cases
+
+
 def generate(rng, tier):
     quick = tier == "quick"
     cap = 6 if quick else 30
@@ -772,14 +858,15 @@ def generate(rng, tier):
                 add(t, None if s is None else ["str", s])
             else:
                 add(t, ["str", rng.choice(STRS)])
-    return witness_cases(rng) + group_cases(rng, tier) + x_cases(rng, tier) + set_cases(rng, tier) + cases
+    return (witness_cases(rng) + group_cases(rng, tier) + kind_cases(rng, tier) + history_cases(rng, tier) + x_cases(rng, tier) + set_cases(rng, tier)
+            + cases)
 
 
 # -----------------------------------------------------------------------------------------------------------------
 # observation
 # -----------------------------------------------------------------------------------------------------------------
 def case_queries(c):
-    qs = [{"ty": c["ty"], "val": c["val"], "ch": c["ch"]}]
+    qs = [{"ty": c["ty"], "val": c["val"], "ch": c["ch"], "before": c.get("before") or []}]
     qs += [{"ty": p, "val": c["val"], "ch": "obj"} for p in c["perms"]]
     qs += [{"ty": pt, "val": pv, "ch": "obj"} for pt, pv in (c["parts"] or [])]
     return qs
@@ -1037,7 +1124,7 @@ def nontrivial_key(case, obs):
         return json.dumps(["group", case["fields"], case["val"], case["style"]])
     if case["ty"][0] in ("str", "int", "float", "bool", "none") and case["val"][0] == case["ty"][0]:
         return None
-    return json.dumps([case["ty"], case["val"], case["ch"]])
+    return json.dumps([case["ty"], case["val"], case["ch"], case.get("before") or []])
 
 
 def ty_depth(t):
@@ -1062,6 +1149,8 @@ def category(case, obs):
                                       "text" if case["val"][0] == "str" else "object", obs["obs"][0])
     if case["kind"] == "group":
         return "group key/%s/%s" % (case["val"][0], obs["obs"][0])
+    if case.get("before"):
+        return "after parses under a confusable hint/%s/%s" % (case["ty"][0], obs["obs"][0])
     return "%s depth %d/%s input/%s" % (case["ty"][0], ty_depth(case["ty"]),
                                         "text" if case["val"][0] == "str" else "object", obs["obs"][0])
 
@@ -1147,6 +1236,9 @@ def describe(case, obs):
                 "call": "parse_object({'g': %s})" % show_val(case["val"]), "observed": show_obs(obs["obs"])}
     call = ("parse_args(['--k=' + %r])" % case["val"][1]) if case["ch"] == "argv" else "parse_object({'k': %s})" % show_val(case["val"])
     d = {"type_hint": show_ty(case["ty"]), "call": call, "observed": show_obs(obs["obs"])}
+    if case.get("before"):
+        d["earlier in the same process (each on its own fresh parser)"] = [
+            "type %s: parse_object({'k': %s})" % (show_ty(b["ty"]), show_val(b["val"])) for b in case["before"]]
     if obs["perms"]:
         d["same input, Union members permuted"] = ["%s: %s" % (show_ty(p), "accepted" if a else "rejected") for p, a in obs["perms"]]
     if obs["parts"]:
@@ -1172,6 +1264,11 @@ def shrink(case):
     import random
     rng = random.Random(0)
     t, v = case["ty"], case["val"]
+    if case.get("before"):               # is the history needed at all?  then a shorter one
+        yield dict(case, before=[])
+        if len(case["before"]) > 1:
+            for i in range(len(case["before"])):
+                yield dict(case, before=case["before"][:i] + case["before"][i + 1:])
 
     def mk(t2, v2):
         if valid_val(v2):
